@@ -150,7 +150,24 @@ let () =
           let run = match nodes, r_frun nm ak (r_fcalls f) r_finit with
             | Some l, Some s -> s.back = l && s.pend = None && s.stk = [] && s.pegn = None
             | _, _ -> false in
-          print_endline (Printf.sprintf "rd %s/%d :: okb=%d run=%d text=%s nodes=%s" seed i (if okb then 1 else 0) (if run then 1 else 0) (cps_s text) ns)
+          print_endline (Printf.sprintf "rd %s/%d :: okb=%d run=%d text=%s nodes=%s" seed i (if okb then 1 else 0) (if run then 1 else 0) (cps_s text) ns);
+          (* malformed variants, in the shape of the rejection theorems of Reader/Reject.v : the C10_rejects theorems *)
+          if okb then begin
+            (* t: the file followed by a character that starts nothing, and anything behind it *)
+            let jc = z_of_int (pick [| 41; 93; 125; 62; 61; 44; 59; 124; 37; 36; 64; 126; 94; 96; 58; 45; 92; 233; 0x65E5; 0x1F600 |]) in
+            if r_junk_head jc then
+              print_endline (Printf.sprintf "bad %s/%d/t :: text=%s" seed i
+                               (cps_s (text @ (jc :: cps (pick [| ""; " x"; "\n"; "R <- 'a'\n"; ")"; "\n# c\n" |])))));
+            (* r: the head of the file with no rule behind it *)
+            let j = cps (pick [| ""; ")"; "123"; "= x"; "'a'"; "<- 'a'"; "(R <- 'a')"; "{ }"; ". x"; "\"a\" b" |]) in
+            (match j with
+             | c :: _ when r_is_istart c -> ()
+             | _ -> print_endline (Printf.sprintf "bad %s/%d/r :: text=%s" seed i (cps_s (r_head_text f @ j))));
+            (* p: the comments and blank lines of the file, then something that is not the package clause *)
+            let tl = cps (pick [| ""; "type T Peg {}\nR <- 'a'\n"; "Package p\n"; "packag e"; "pack"; "R <- 'a'"; "import \"x\""; "{"; "1"; "packagE x" |]) in
+            if r_header_okb f.f_header tl then
+              print_endline (Printf.sprintf "bad %s/%d/p :: text=%s" seed i (cps_s (List.concat_map (function HCmt (sl, b, e) -> (if sl then cps "//" else cps "#") @ b @ e | HSp r -> r) f.f_header @ tl)))
+          end
         done
       | ["names"] -> print_endline ("names " ^ String.concat " " (Array.to_list names))
       | _ -> print_endline ("ERR unknown command: " ^ line)
